@@ -48,7 +48,8 @@ Inductive op : Type :=
 | ORemove (k : Z)
 | OReserve (n : Z) (refuse : bool) (sch : list bool)
 | OTraverse
-| OCount.
+| OCount
+| OClear (shrink : bool).
 
 Inductive mstat : Type := MOk | MStop | MTerm.   (* migration: completed | stopped by a swallowed failure | std::terminate *)
 
@@ -60,6 +61,8 @@ Section GrowModel.
   Variable h : Z -> Z.               (* the hash function: arbitrary *)
   Variable cap : Z.                  (* Bucket::maxCount *)
   Variable wf0 : bool.               (* Bucket::WasFull() of a fresh bucket *)
+  Variable wfull : Z -> bool.        (* WasFull() of a bucket whose count has reached n: maxCount <= n for LimP4/Open/One;
+                                        for LimP it is derived from the memory-pool index (pool(n) = pool(maxCount)) *)
   Variable start : Z -> Z -> Z.      (* GetStartBucketIndex hashCode bucketCount *)
   Variable next : Z -> Z -> Z -> Z.  (* GetNextBucketIndex bucketIndex bucketCount probe *)
   Variable logStart : Z.             (* HashTraits::GetLogStartBucketCount *)
@@ -120,7 +123,7 @@ Section GrowModel.
     | Some (idx, probe) =>
       let b := getb t idx in
       let its := items b ++ [k] in
-      let t1 := setb t idx (mkB its (wasFull b || (cap <=? Z.of_nat (length its))) (bound b)) in
+      let t1 := setb t idx (mkB its (wasFull b || wfull (Z.of_nat (length its))) (bound b)) in
       let hb := getb t1 i0 in
       Some (setb t1 i0 (mkB (items hb) (wasFull hb) (upd_bound (bound hb) (Z.of_nat probe))))
     end.
@@ -148,6 +151,85 @@ Section GrowModel.
      inside a bucket from the last item to the first *)
   Definition ttraverse (t : table) : list Z := flat_map (fun b => rev (items b)) (tbs t).
   Definition traverse (s : hset) : list Z := if count s =? 0 then [] else flat_map ttraverse (gens s).
+
+  (* ---- HashSetConstIterator as the state machine of HashSet.h:334-383 ----
+     IAt gs bi p: mBuckets = head of gs (gs = the rest of the chain from there), bucket index bi, and
+     mBucketIterator = GetBounds().GetBegin() + p   (p = count would be GetEnd()). *)
+  Inductive iter : Type := IEnd | IAt (gs : list table) (bi : nat) (p : nat).
+
+  Definition bcnt (t : table) (bi : nat) : nat := length (items (nth bi (tbs t) emptyB)).
+
+  (* the `while (true)` loop of pvMove: ++bucketIndex; if (bucketIndex >= bucketCount) break;
+     if (bounds.GetCount() > 0) { ptReset(bucketIndex, prev(bounds.GetEnd())); return; } *)
+  Fixpoint move_loop (n : nat) (t : table) (bi : nat) : option (nat * nat) :=
+    match n with
+    | O => None
+    | S n' => if (Z.to_nat (bcount t) <=? S bi)%nat then None
+              else match bcnt t (S bi) with
+                   | S p => Some (S bi, p)
+                   | O => move_loop n' t (S bi)
+                   end
+    end.
+
+  (* pvMove 359-383; after the loop: nextBuckets != nullptr -> mBuckets = nextBuckets; ptReset(0, bounds(0).GetEnd());
+     return pvInc()  [= prev(end) if bucket 0 of the next generation has items, else pvMove again] *)
+  Fixpoint pv_move (gs : list table) (bi : nat) : iter :=
+    match gs with
+    | [] => IEnd
+    | t :: rest =>
+      match move_loop (Z.to_nat (bcount t)) t bi with
+      | Some (bi', p) => IAt gs bi' p
+      | None =>
+        match rest with
+        | [] => IEnd
+        | t2 :: _ => match bcnt t2 0 with
+                     | S p => IAt rest 0 p
+                     | O => pv_move rest 0
+                     end
+        end
+      end
+    end.
+
+  (* pvInc 349-357: if (bucketIter != bounds.GetBegin()) --bucketIter; else pvMove(); *)
+  Definition pv_inc (gs : list table) (bi p : nat) : iter :=
+    match p with S p' => IAt gs bi p' | O => pv_move gs bi end.
+
+  (* GetBegin 642-649: empty container -> end; else iterator(bucket 0, GetEnd()) followed by pvInc() *)
+  Definition it_begin (s : hset) : iter :=
+    if count s =? 0 then IEnd
+    else match gens s with
+         | [] => IEnd
+         | t :: _ => match bcnt t 0 with S p => IAt (gens s) 0 p | O => pv_move (gens s) 0 end
+         end.
+
+  Definition it_deref (it : iter) : Z :=
+    match it with
+    | IAt (t :: _) bi p => nth p (items (nth bi (tbs t) emptyB)) 0
+    | _ => 0
+    end.
+
+  Definition it_next (it : iter) : iter :=       (* operator++ *)
+    match it with IEnd => IEnd | IAt gs bi p => pv_inc gs bi p end.
+
+  (* for (it = GetBegin(); it != GetEnd(); ++it): the items seen within `fuel` steps and where the iterator stands then *)
+  Fixpoint walk (fuel : nat) (it : iter) : list Z * iter :=
+    match it with
+    | IEnd => ([], IEnd)
+    | IAt _ _ _ => match fuel with
+                   | O => ([], it)
+                   | S f => let (l, e) := walk f (it_next it) in (it_deref it :: l, e)
+                   end
+    end.
+
+  Definition traverse_it (s : hset) : list Z := fst (walk (Z.to_nat (count s)) (it_begin s)).
+
+  (* ---- Clear(shrink), 684-702 ---- *)
+  Definition clearT (t : table) : table := mkT (tlog t) (map (fun _ => emptyB) (tbs t)).
+  Definition hclear (s : hset) (shrink : bool) : hset :=
+    match gens s with
+    | [] => s
+    | t :: _ => if shrink then mkH [] 0 0 else mkH [clearT t] 0 (capacity s)
+    end.
 
   (* ---- pvRelocateItems, 1251-1302: oldest generation first, buckets 0.., items last to first; each item is
           pvAddNogrow'ed to the newest table and then removed from its bucket; the first failure stops
@@ -272,6 +354,27 @@ Section GrowModel.
                 end
          end.
 
+  (* ---- pvFindBuckets(bucketIndex, bucketIter), 1220-1237 ----
+     An item address is (generation, bucket index, offset): the item storage of different buckets and of different
+     generations is disjoint (memory-model assumption), so `!less(iter, begin) && less(iter, end)` for bucket bi of
+     generation #gi holds iff the iterator was obtained from that very bucket (owner = gi) and is below its end. *)
+  Definition ptr_in (owner pos gi : nat) (t : table) (bi : Z) : bool :=
+    Nat.eqb owner gi && (pos <? length (items (getb t bi)))%nat.
+
+  Fixpoint find_buckets_loop (gs : list table) (bi : Z) (owner pos gi : nat) : option nat :=
+    match gs with
+    | [] => None                                                  (* MOMO_ASSERT(false) *)
+    | t :: r => if bcount t <=? bi then find_buckets_loop r bi owner pos (S gi)        (* continue *)
+                else if ptr_in owner pos gi t bi then Some gi
+                else find_buckets_loop r bi owner pos (S gi)
+    end.
+
+  Definition find_buckets (gs : list table) (bi : Z) (owner pos : nat) : option nat :=
+    match gs with
+    | [_] => Some O                                               (* mBuckets->GetNextBuckets() == nullptr *)
+    | _ => find_buckets_loop gs bi owner pos 0
+    end.
+
   Definition upd_gen (gs : list table) (gi : nat) (f : table -> table) : list table :=
     match nth_error gs gi with Some t => upd_nth gi (f t) gs | None => gs end.
 
@@ -287,13 +390,17 @@ Section GrowModel.
     | OFind k => Some (s, RFound (match hfind s k with Some _ => true | None => false end))
     | ORemove k =>
       match hfind s k with
-      | Some (gi, idx, pos) =>
-        Some (mkH (upd_gen (gens s) gi (fun t => tremove t idx pos)) (count s - 1) (capacity s), RRemoved true)
+      | Some (gi, idx, pos) =>                                    (* pvRemove: the generation is looked up again *)
+        match find_buckets (gens s) idx gi pos with
+        | Some g => Some (mkH (upd_gen (gens s) g (fun t => tremove t idx pos)) (count s - 1) (capacity s), RRemoved true)
+        | None => None                                            (* MOMO_ASSERT(false) in pvFindBuckets *)
+        end
       | None => Some (s, RRemoved false)
       end
     | OReserve n refuse sch => hreserve s n refuse sch
-    | OTraverse => Some (s, RList (traverse s))
+    | OTraverse => Some (s, RList (traverse_it s))
     | OCount => Some (s, RNum (count s))
+    | OClear shrink => Some (hclear s shrink, RUnit)
     end.
 
   Fixpoint run (s : hset) (os : list op) : option (hset * list out) :=
@@ -314,6 +421,7 @@ Section GrowModel.
   (*  PROOFS                                                                                             *)
   (* ================================================================================================== *)
   Hypothesis cap_pos : 0 < cap.
+  Hypothesis wfull_cap : forall n, cap <= n -> wfull n = true.
   Hypothesis start_range : forall hc bc, 0 < bc -> 0 <= start hc bc < bc.
   Hypothesis next_range : forall i bc p, 0 < bc -> 0 <= next i bc p < bc.
   Hypothesis decode_upd : forall L b p, 0 <= p -> p <= decode L (upd_bound b p) /\ decode L b <= decode L (upd_bound b p).
@@ -648,7 +756,7 @@ Section GrowModel.
     destruct (add_loop_spec _ _ _ _ _ _ EL) as (Eidx & _ & HNF & HF).
     set (i0 := path (bcount t) (h k) 0) in *.
     set (b := getb t idx) in *.
-    set (b1 := mkB (items b ++ [k]) (wasFull b || (cap <=? Z.of_nat (length (items b ++ [k])))) (bound b)) in *.
+    set (b1 := mkB (items b ++ [k]) (wasFull b || wfull (Z.of_nat (length (items b ++ [k])))) (bound b)) in *.
     set (t1 := setb t idx b1) in *.
     set (hb := getb t1 i0) in *.
     set (hb' := mkB (items hb) (wasFull hb) (upd_bound (bound hb) (Z.of_nat q))) in *.
@@ -707,7 +815,7 @@ Section GrowModel.
         split.
         * rewrite Eb'. unfold isFull, blen. rewrite PI, PWF.
           destruct (Nat.eqb_spec i (Z.to_nat idx)).
-          -- unfold b1; simpl. unfold b, getb. rewrite <- e. unfold getb in *. rewrite Nat2Z.id. intros HH. rewrite HH. apply orb_true_r.
+          -- unfold b1; simpl. unfold b, getb. rewrite <- e. unfold getb in *. rewrite Nat2Z.id. intros HH. apply Z.leb_le in HH. rewrite (wfull_cap _ HH). apply orb_true_r.
           -- apply HF0.
         * intros x Hx. rewrite Eb', PI in Hx.
           assert (In x (items (getb t (Z.of_nat i))) \/ (i = Z.to_nat idx /\ x = k)).
@@ -959,6 +1067,35 @@ Section GrowModel.
     intros. assert (NoDup (k :: l')) by (eapply Permutation_NoDup; eauto). inversion H1; subst. auto.
   Qed.
 
+  Lemma find_buckets_loop_spec : forall gs bi pos j base t,
+    nth_error gs j = Some t -> bi < bcount t -> (pos < length (items (getb t bi)))%nat ->
+    find_buckets_loop gs bi (base + j) pos base = Some (base + j)%nat.
+  Proof.
+    induction gs as [|t0 r IH]; intros bi pos j base t HN HB HP; destruct j; simpl in HN; try discriminate.
+    - inversion HN; subst t0. simpl. destruct (Z.leb_spec (bcount t) bi); [lia|].
+      unfold ptr_in. rewrite Nat.add_0_r, Nat.eqb_refl. simpl. apply Nat.ltb_lt in HP. rewrite HP. auto.
+    - simpl. replace (base + S j)%nat with (S base + j)%nat by lia.
+      destruct (bcount t0 <=? bi); [exact (IH bi pos j (S base) t HN HB HP)|].
+      unfold ptr_in. replace (S base + j =? base)%nat with false by (symmetry; apply Nat.eqb_neq; lia).
+      exact (IH bi pos j (S base) t HN HB HP).
+  Qed.
+
+  (* pvFindBuckets returns the generation that actually contains the bucket iterator *)
+  Lemma find_buckets_spec : forall s k gi idx pos, Inv s -> hfind s k = Some (gi, idx, pos) ->
+    find_buckets (gens s) idx gi pos = Some gi.
+  Proof.
+    intros s k gi idx pos (HF & _) H. destruct (hfind_sound _ _ _ _ _ H) as (t & N & F & _).
+    apply tfind_in in F. destruct F as (F1 & F2 & _).
+    assert (Ht : tinv t) by (eapply Forall_forall; [apply HF|eapply nth_error_In; eauto]).
+    assert (HB : idx < bcount t).
+    { destruct Ht as (H0 & HL & _). rewrite HL in F2. pose proof (bcount_pos t H0). lia. }
+    assert (HP : (pos < length (items (getb t idx)))%nat) by (eapply nth_error_some_lt; eauto).
+    unfold find_buckets. destruct (gens s) as [|t0 [|t1 r]] eqn:EG.
+    - destruct gi; discriminate.
+    - destruct gi as [|[|gi]]; simpl in N; try discriminate. auto.
+    - apply (find_buckets_loop_spec (t0 :: t1 :: r) idx pos gi 0%nat t N HB HP).
+  Qed.
+
   (* removable *)
   Lemma remove_spec : forall s k g idx pos, Inv s -> hfind s k = Some (g, idx, pos) ->
     let s' := mkH (upd_gen (gens s) g (fun t => tremove t idx pos)) (count s - 1) (capacity s) in
@@ -1101,12 +1238,14 @@ Section GrowModel.
     | OReserve n rf sch => r = RUnit \/ r = RBadAlloc \/ r = RCheck
     | OTraverse => exists l, r = RList l /\ Permutation l A /\ NoDup l
     | OCount => r = RNum (Z.of_nat (length A))
+    | OClear _ => r = RUnit
     end.
 
   Definition abs_after (A : list Z) (o : op) (r : out) (A' : list Z) : Prop :=
     match o, r with
     | OInsert k _ _ _ _, RInserted => Permutation A' (k :: A)
     | ORemove k, RRemoved true => Permutation A (k :: A')
+    | OClear _, _ => A' = []
     | _, _ => Permutation A' A
     end.
 
@@ -1128,8 +1267,164 @@ Section GrowModel.
     - split; [apply traverse_all_perm|]. eapply Permutation_NoDup; [apply Permutation_sym, traverse_all_perm|]. auto.
   Qed.
 
+  (* ---- the iterator machine (pvInc / pvMove) enumerates exactly `traverse` and then stops ---- *)
+  Definition lenok (t : table) : Prop := length (tbs t) = Z.to_nat (bcount t) /\ (0 < length (tbs t))%nat.
+
+  Lemma tinv_lenok : forall t, tinv t -> lenok t.
+  Proof. intros t (H0 & HL & _). split; auto. rewrite HL. pose proof (bcount_pos t H0). lia. Qed.
+
+  (* what is left after the current bucket of the current generation *)
+  Definition rem_b (t : table) (bi : nat) : list Z := flat_map (fun b => rev (items b)) (skipn (S bi) (tbs t)).
+
+  (* what an iterator still has to visit (including the item it points to) *)
+  Definition rem_it (it : iter) : list Z :=
+    match it with
+    | IAt (t :: rest) bi p => rev (firstn (S p) (items (nth bi (tbs t) emptyB))) ++ rem_b t bi ++ flat_map ttraverse rest
+    | _ => []
+    end.
+
+  Definition valid_it (it : iter) : Prop :=
+    match it with
+    | IEnd => True
+    | IAt gs bi p => Forall lenok gs /\ match gs with [] => False | t :: _ => (p < bcnt t bi)%nat end
+    end.
+
+  Lemma rem_it_at : forall t rest bi p, rem_it (IAt (t :: rest) bi p) =
+    rev (firstn (S p) (items (nth bi (tbs t) emptyB))) ++ rem_b t bi ++ flat_map ttraverse rest.
+  Proof. reflexivity. Qed.
+
+  Lemma skipn_nth_cons : forall A (l : list A) n d, (n < length l)%nat -> skipn n l = nth n l d :: skipn (S n) l.
+  Proof. induction l; destruct n; simpl; intros; try lia; auto. apply IHl; lia. Qed.
+
+  Lemma rev_firstn_S : forall (l : list Z) n, (n < length l)%nat -> rev (firstn (S n) l) = nth n l 0 :: rev (firstn n l).
+  Proof.
+    induction l; intros n H; simpl in H; [lia|]. destruct n.
+    - simpl. auto.
+    - change (firstn (S (S n)) (a :: l)) with (a :: firstn (S n) l). change (firstn (S n) (a :: l)) with (a :: firstn n l).
+      change (rev (a :: firstn (S n) l)) with (rev (firstn (S n) l) ++ [a]). rewrite IHl by lia. reflexivity.
+  Qed.
+
+  Lemma move_loop_some : forall t, lenok t -> forall n bi bi' p, move_loop n t bi = Some (bi', p) ->
+    bcnt t bi' = S p /\ rem_b t bi = rev (items (nth bi' (tbs t) emptyB)) ++ rem_b t bi'.
+  Proof.
+    intros t (HL & _). induction n; intros bi bi' p H; simpl in H; [discriminate|].
+    rewrite <- HL in H. destruct (Nat.leb_spec (length (tbs t)) (S bi)); [discriminate|].
+    unfold rem_b at 1. rewrite (skipn_nth_cons _ (tbs t) (S bi) emptyB) by lia. simpl flat_map.
+    destruct (bcnt t (S bi)) eqn:E.
+    - apply IHn in H. destruct H as (H1 & H2). split; auto.
+      unfold bcnt in E. apply length_zero_iff_nil in E. rewrite E. simpl. exact H2.
+    - inversion H; subst. split; auto.
+  Qed.
+
+  Lemma move_loop_none : forall t, lenok t -> forall n bi, (length (tbs t) <= S bi + n)%nat ->
+    move_loop n t bi = None -> rem_b t bi = [].
+  Proof.
+    intros t (HL & _). induction n; intros bi Hn H.
+    - unfold rem_b. rewrite skipn_all2 by lia. auto.
+    - simpl in H. rewrite <- HL in H. destruct (Nat.leb_spec (length (tbs t)) (S bi)).
+      + unfold rem_b. rewrite skipn_all2 by lia. auto.
+      + unfold rem_b. rewrite (skipn_nth_cons _ (tbs t) (S bi) emptyB) by lia. simpl flat_map.
+        destruct (bcnt t (S bi)) eqn:E; [|discriminate].
+        unfold bcnt in E. apply length_zero_iff_nil in E. rewrite E. simpl. apply (IHn (S bi)); auto. lia.
+  Qed.
+
+  Lemma ttraverse_head : forall t, lenok t -> ttraverse t = rev (items (nth 0 (tbs t) emptyB)) ++ rem_b t 0.
+  Proof. intros t (_ & HP). unfold ttraverse, rem_b. destruct (tbs t); simpl in *; [lia|auto]. Qed.
+
+  Lemma pv_move_spec : forall gs, Forall lenok gs -> forall bi t rest, gs = t :: rest ->
+    valid_it (pv_move gs bi) /\ rem_it (pv_move gs bi) = rem_b t bi ++ flat_map ttraverse rest.
+  Proof.
+    induction gs as [|t0 rest0 IH]; intros HF bi t rest EQ; [discriminate|]. inversion EQ; subst t0 rest0; clear EQ.
+    inversion HF; subst. simpl pv_move.
+    destruct (move_loop (Z.to_nat (bcount t)) t bi) as [[bi' p]|] eqn:E.
+    - destruct (move_loop_some t H1 _ _ _ _ E) as (C & R). split.
+      + simpl. split; auto. rewrite C; lia.
+      + rewrite rem_it_at. rewrite R. rewrite <- C. unfold bcnt. rewrite firstn_all. rewrite app_assoc. auto.
+    - assert (R : rem_b t bi = []).
+      { apply move_loop_none with (n := Z.to_nat (bcount t)); auto. destruct H1 as (HL & _). lia. }
+      rewrite R. simpl app.
+      destruct rest as [|t2 r2]; [simpl; auto|]. inversion H2; subst.
+      simpl flat_map. rewrite (ttraverse_head t2) by auto.
+      destruct (bcnt t2 0) eqn:C.
+      + destruct (IH H2 0%nat t2 r2 eq_refl) as (V & R2). split; auto. rewrite R2.
+        unfold bcnt in C. apply length_zero_iff_nil in C. rewrite C. auto.
+      + split; [simpl; split; auto; rewrite C; lia|].
+        rewrite rem_it_at. rewrite <- C. unfold bcnt. rewrite firstn_all. rewrite app_assoc. auto.
+  Qed.
+
+  Lemma it_step : forall gs bi p, valid_it (IAt gs bi p) ->
+    rem_it (IAt gs bi p) = it_deref (IAt gs bi p) :: rem_it (pv_inc gs bi p) /\ valid_it (pv_inc gs bi p).
+  Proof.
+    intros gs bi p (HF & HV). destruct gs as [|t rest]; [tauto|]. unfold bcnt in HV. destruct p;
+      [change (pv_inc (t :: rest) bi 0) with (pv_move (t :: rest) bi)
+      |change (pv_inc (t :: rest) bi (S p)) with (IAt (t :: rest) bi p)].
+    - destruct (pv_move_spec (t :: rest) HF bi t rest eq_refl) as (V & R). split; auto. rewrite R.
+      rewrite rem_it_at. simpl it_deref. destruct (items (nth bi (tbs t) emptyB)); simpl in *; [lia|auto].
+    - split; [|simpl; split; auto; unfold bcnt; lia].
+      repeat rewrite rem_it_at. simpl it_deref. rewrite (rev_firstn_S _ (S p)) by lia. auto.
+  Qed.
+
+  Lemma walk_spec : forall fuel it, valid_it it -> (length (rem_it it) <= fuel)%nat -> walk fuel it = (rem_it it, IEnd).
+  Proof.
+    induction fuel; intros it V L; destruct it as [|gs bi p]; try reflexivity.
+    - destruct (it_step gs bi p V) as (E & _). rewrite E in L. simpl in L. lia.
+    - destruct (it_step gs bi p V) as (E & V'). rewrite E in L. simpl in L.
+      change (walk (S fuel) (IAt gs bi p)) with
+        (let (l, e) := walk fuel (pv_inc gs bi p) in (it_deref (IAt gs bi p) :: l, e)).
+      rewrite IHfuel; auto; [|lia]. rewrite E. auto.
+  Qed.
+
+  Lemma it_begin_spec : forall s, Forall lenok (gens s) -> valid_it (it_begin s) /\ rem_it (it_begin s) = traverse s.
+  Proof.
+    intros s HF. unfold it_begin, traverse. destruct (count s =? 0); [simpl; auto|].
+    destruct (gens s) as [|t rest] eqn:EG; [simpl; auto|]. inversion HF; subst.
+    simpl flat_map. rewrite (ttraverse_head t) by auto.
+    destruct (bcnt t 0) eqn:C.
+    - destruct (pv_move_spec (t :: rest) HF 0%nat t rest eq_refl) as (V & R). split; auto. rewrite R.
+      unfold bcnt in C. apply length_zero_iff_nil in C. rewrite C. auto.
+    - split; [simpl; split; auto; rewrite C; lia|].
+      rewrite rem_it_at. rewrite <- C. unfold bcnt. rewrite firstn_all. rewrite app_assoc. auto.
+  Qed.
+
+  (* traversal_once for the machine: started at GetBegin() in ANY state satisfying Inv (any number of generations), the
+     iterator visits, in mCount increments, exactly the items of `traverse` (a duplicate-free permutation of the
+     contents, traverse_spec) and then IS the end iterator *)
+  Theorem iterator_walk : forall s, Inv s -> walk (Z.to_nat (count s)) (it_begin s) = (traverse s, IEnd).
+  Proof.
+    intros s HI. pose proof HI as (HF & _ & HC & _).
+    assert (HL : Forall lenok (gens s)) by (eapply Forall_impl; [|apply HF]; apply tinv_lenok).
+    destruct (it_begin_spec s HL) as (V & R). rewrite <- R. apply walk_spec; auto.
+    rewrite R. destruct (traverse_spec s HI) as (P & _). apply Permutation_length in P. rewrite P, HC. rewrite Nat2Z.id. lia.
+  Qed.
+
+  Lemma traverse_it_eq : forall s, Inv s -> traverse_it s = traverse s.
+  Proof. intros s HI. unfold traverse_it. rewrite (iterator_walk s HI). auto. Qed.
+
   Lemma hfind_none_notin : forall s k, Inv s -> hfind s k = None -> ~ In k (abs s).
   Proof. intros s k HI H Hin. destruct (hfind_complete s k HI Hin). congruence. Qed.
+
+  Lemma tinv_clearT : forall t, tinv t -> tinv (clearT t) /\ tkeys (clearT t) = [].
+  Proof.
+    intros t (H0 & HL & _). split.
+    - split; [exact H0|]. split.
+      + unfold clearT, bcount; simpl. rewrite map_length. exact HL.
+      + intros i b Hi. simpl in Hi. apply nth_error_In in Hi. apply in_map_iff in Hi. destruct Hi as (x & E & _). subst b. split.
+        * unfold isFull, blen; simpl. intros HH. apply Z.leb_le in HH. lia.
+        * simpl. tauto.
+    - unfold tkeys, clearT; simpl. clear HL. induction (tbs t); simpl; auto.
+  Qed.
+
+  (* Clear in any state (e.g. an interrupted migration): the newest table is kept empty (or everything is released) *)
+  Lemma hclear_spec : forall s shrink, Inv s -> Inv (hclear s shrink) /\ abs (hclear s shrink) = [].
+  Proof.
+    intros s shrink HI. pose proof HI as (HF & HD & HC & HN). unfold hclear.
+    destruct (gens s) as [|t r] eqn:EG.
+    - split; auto. unfold abs. rewrite EG. auto.
+    - destruct shrink.
+      + split; [apply Inv_init|reflexivity].
+      + inversion HF; subst. destruct (tinv_clearT t H1) as (T1 & K1).
+        unfold Inv, abs; simpl. rewrite K1. simpl. repeat split; auto; try constructor; auto.
+  Qed.
 
   Theorem step_refines : forall s o s' r, Inv s -> step s o = Some (s', r) ->
     Inv s' /\ out_ok (abs s) o r /\ abs_after (abs s) o r (abs s').
@@ -1151,13 +1446,16 @@ Section GrowModel.
       + destruct (hfind_sound _ _ _ _ _ EF) as (_ & _ & _ & Hin). auto.
       + pose proof (hfind_none_notin _ _ HI EF). auto.
     - destruct (hfind s k) as [[[g idx] pos]|] eqn:EF.
-      + inversion H; subst. destruct (remove_spec _ _ _ _ _ HI EF) as (A1 & A2 & A3 & _).
+      + rewrite (find_buckets_spec _ _ _ _ _ HI EF) in H.
+        inversion H; subst. destruct (remove_spec _ _ _ _ _ HI EF) as (A1 & A2 & A3 & _).
         destruct (hfind_sound _ _ _ _ _ EF) as (_ & _ & _ & Hin). simpl; auto.
       + inversion H; subst. pose proof (hfind_none_notin _ _ HI EF). simpl; auto.
     - destruct (hreserve_spec _ _ _ _ _ _ HI H) as (A1 & A2 & A3). split; auto. simpl. split; auto.
       destruct A3 as [A3|(_ & [A3|A3])]; auto.
-    - inversion H; subst. destruct (traverse_spec _ HI). split; auto. simpl. split; eauto.
+    - inversion H; subst. destruct (traverse_spec _ HI). split; auto. simpl. split; auto.
+      rewrite (traverse_it_eq _ HI). eauto.
     - inversion H; subst. split; auto. simpl. destruct HI as (_ & _ & HC & _). rewrite HC. auto.
+    - inversion H; subst. destruct (hclear_spec _ shrink HI) as (A1 & A2). split; auto. simpl. auto.
   Qed.
 
   (* relocate_interrupted_inv for every history and every schedule *)
@@ -1345,6 +1643,38 @@ Section GrowModel.
     rewrite E2. eauto.
   Qed.
 
+  (* ---- Reserve in a multi-generation state ---- *)
+  Lemma reserve_log_spec : forall fuel nl n r, reserve_log fuel nl n = Some r -> nl <= r /\ n <= calcCapacity (2 ^ r).
+  Proof.
+    induction fuel; intros nl n r H; simpl in H; destruct (Z.leb_spec n (calcCapacity (2 ^ nl))); try discriminate;
+      try (inversion H; subst; split; [lia|auto]).
+    apply IHfuel in H. split; [lia|tauto].
+  Qed.
+
+  (* a granted, failure-free Reserve(n) with n >= mCount, issued in ANY state satisfying Inv (e.g. several generations
+     left by interrupted migrations): everything is migrated into the new table, ONE generation remains, the contents are
+     the same, the capacity suffices.  (With a refused allocation or a failing migration: hreserve_spec / Inv kept.) *)
+  Theorem reserve_completes_migration : forall s n nl, Inv s -> (n <=? capacity s) = false -> count s <= n ->
+    reserve_log 64 (newLog (gens s)) n = Some nl ->
+    exists s', hreserve s n false [] = Some (s', RUnit) /\ length (gens s') = 1%nat /\ Inv s' /\
+               Permutation (abs s') (abs s) /\ n <= capacity s'.
+  Proof.
+    intros s n nl HI C1 C2 EL. pose proof HI as (HF & HD & HC & HN).
+    destruct (reserve_log_spec _ _ _ _ EL) as (GE & GC).
+    assert (NL : 0 <= nl) by (pose proof (newLog_nonneg _ HF); lia).
+    pose proof (cc_le_phys nl NL) as PH. pose proof (tinv_newTable nl NL) as TN.
+    assert (RG : exists nw', relocate (newTable nl :: gens s) [] = Some [nw']).
+    { unfold abs in HC. destruct (gens s) as [|t r] eqn:EG; [simpl; eauto|].
+      destruct (reloc_gens_ok (t :: r) (newTable nl) HF TN) as (nw' & E).
+      { rewrite tkeys_newTable. change (bcount (newTable nl)) with (2 ^ nl). change (length (@nil Z)) with 0%nat. rewrite Nat.add_0_r. lia. }
+      exists nw'. unfold relocate. rewrite E. auto. }
+    destruct RG as (nw' & ER).
+    assert (EH : hreserve s n false [] = Some (mkH [nw'] (count s) (calcCapacity (2 ^ nl)), RUnit)).
+    { unfold hreserve. rewrite C1, EL, ER. auto. }
+    eexists. split; [exact EH|]. destruct (hreserve_spec _ _ _ _ _ _ HI EH) as (A1 & A2 & _).
+    split; [reflexivity|]. split; [exact A1|]. split; [exact A2|]. exact GC.
+  Qed.
+
   (* P s: invariant + the capacity field does not exceed the physical size of the newest table *)
   Definition CapOk (s : hset) : Prop :=
     exists t r, gens s = t :: r /\ capacity s <= cap * bcount t.
@@ -1492,6 +1822,7 @@ Section GrowModel.
           rewrite E, C. unfold bcount. rewrite L. simpl. apply cc_le_phys; auto.
     - inversion H; subst; auto.
     - destruct (hfind s k) as [[[g idx] pos]|] eqn:EF; [|inversion H; subst; auto].
+      rewrite (find_buckets_spec _ _ _ _ _ HI EF) in H.
       inversion H; subst; clear H. unfold CapInv in *. simpl.
       destruct (hfind_sound _ _ _ _ _ EF) as (tg & N & _). unfold upd_gen. rewrite N.
       destruct (gens s) as [|t r0] eqn:EG; [destruct g; discriminate|].
@@ -1508,6 +1839,8 @@ Section GrowModel.
       unfold bcount. rewrite L. simpl. apply cc_le_phys; auto.
     - inversion H; subst; auto.
     - inversion H; subst; auto.
+    - inversion H; subst. unfold CapInv, hclear in *. destruct (gens s) as [|t r0] eqn:EG; [rewrite EG; auto|].
+      destruct shrink; simpl; auto.
   Qed.
 
   Theorem capinv_run : forall os s s' outs, Inv s -> CapInv s -> run s os = Some (s', outs) -> CapInv s'.
@@ -1566,16 +1899,23 @@ Definition spread (dist k : Z) : Z :=
 Record config : Type := mkCfg {
   c_probe : Z;      (* 0 = linear (LimP4, LimP, One), 1 = triangular (Open2N2, Open8) *)
   c_policy : Z;     (* 0 = HashBucketBase policy, 1 = open policy *)
-  c_cap : Z; c_wf0 : bool; c_logStart : Z; c_dist : Z; c_nothrow : bool }.
+  c_cap : Z; c_wf0 : bool; c_logStart : Z; c_dist : Z; c_nothrow : bool;
+  c_wfodd : bool    (* LimP with skipOddMemPools: WasFull as soon as the memory pool of maxCount items is in use *) }.
+
+(* WasFull rule.  LimP4 / Open2N2 / Open8 / One: the count has reached maxCount.  LimP (HashBucketLimP.h:153-160,
+   pvGetMemPoolIndex(count) = count + (skipOddMemPools ? count % 2 : 0)): the bucket uses the pool of maxCount items. *)
+Definition cfg_wfull (c : config) (n : Z) : bool :=
+  if c_wfodd c then (c_cap c + c_cap c mod 2 <=? n + n mod 2) else (c_cap c <=? n).
 
 (* exact max-probe bound: B = Z, decode = id, UpdateMaxProbe = max (the real encoders over-approximate; C13) *)
 Definition cfg_step (c : config) :=
-  step Z 0 (fun _ b => b) Z.max (spread (c_dist c)) (c_cap c) (c_wf0 c) start_mask
+  step Z 0 (fun _ b => b) Z.max (spread (c_dist c)) (c_cap c) (c_wf0 c) (cfg_wfull c) start_mask
        (if c_probe c =? 0 then next_linear else next_tri) (c_logStart c)
        (if c_policy c =? 0 then cc_base (c_cap c) else cc_open (c_cap c))
        (if c_policy c =? 0 then sh_base (c_cap c) else sh_open (c_cap c)) (c_nothrow c).
 Definition cfg_init : hset Z := hinit Z.
 Definition cfg_shape (s : hset Z) := shape Z s.
+Definition cfg_traverse (c : config) (s : hset Z) : list Z := traverse_it Z 0 (c_wf0 c) s.   (* through the iterator machine *)
 Definition cfg_find (c : config) (s : hset Z) (k : Z) : bool :=
   match hfind Z 0 (fun _ b => b) (spread (c_dist c)) (c_wf0 c) start_mask
               (if c_probe c =? 0 then next_linear else next_tri) (c_nothrow c) s k with
@@ -1592,6 +1932,7 @@ Section Final.
   Variable h : Z -> Z.
   Variable cap : Z.
   Variable wf0 : bool.
+  Variable wfull : Z -> bool.
   Variable start : Z -> Z -> Z.
   Variable next : Z -> Z -> Z -> Z.
   Variable logStart : Z.
@@ -1606,7 +1947,8 @@ Section Final.
     (forall hc bc, 0 < bc -> 0 <= start hc bc < bc) /\
     (forall i bc p, 0 < bc -> 0 <= next i bc p < bc) /\
     (forall L b p, 0 <= p -> p <= decode L (upd_bound b p) /\ decode L b <= decode L (upd_bound b p)) /\
-    (forall bc, 0 <= shift bc) /\ 0 <= logStart.
+    (forall bc, 0 <= shift bc) /\ 0 <= logStart /\
+    (forall n, cap <= n -> wfull n = true).
 
   (* additionally for later_ops_complete_migration: the probe sequence reaches every bucket (C13) and the
      capacity of a table never exceeds its physical size *)
@@ -1618,21 +1960,21 @@ Section Final.
   Definition kind_ok3 : Prop := forall L, 0 <= L -> 2 ^ L <= 2 * calcCapacity (2 ^ L) + 1.
 
   Notation Inv' := (Inv B b0 decode h cap wf0 start next nothrowReloc).
-  Notation step' := (step B b0 decode upd_bound h cap wf0 start next logStart calcCapacity shift nothrowReloc).
-  Notation run' := (run B b0 decode upd_bound h cap wf0 start next logStart calcCapacity shift nothrowReloc).
+  Notation step' := (step B b0 decode upd_bound h cap wf0 wfull start next logStart calcCapacity shift nothrowReloc).
+  Notation run' := (run B b0 decode upd_bound h cap wf0 wfull start next logStart calcCapacity shift nothrowReloc).
   Notation hfind' := (hfind B b0 decode h wf0 start next nothrowReloc).
 
   Theorem relocate_interrupted_inv : kind_ok -> forall os s outs, run' (hinit B) os = Some (s, outs) -> Inv' s.
   Proof.
-    intros (H1 & H2 & H3 & H4 & H5 & H6) os s outs H.
-    eapply (run_inv B b0 decode upd_bound h cap wf0 start next logStart calcCapacity shift nothrowReloc); eauto.
+    intros (H1 & H2 & H3 & H4 & H5 & H6 & H7) os s outs H.
+    eapply (run_inv B b0 decode upd_bound h cap wf0 wfull start next logStart calcCapacity shift nothrowReloc); eauto.
     apply Inv_init.
   Qed.
 
   Theorem inv_step : kind_ok -> forall s o s' r, Inv' s -> step' s o = Some (s', r) -> Inv' s'.
   Proof.
-    intros (H1 & H2 & H3 & H4 & H5 & H6) s o s' r HI H.
-    eapply (step_refines B b0 decode upd_bound h cap wf0 start next logStart calcCapacity shift nothrowReloc); eauto.
+    intros (H1 & H2 & H3 & H4 & H5 & H6 & H7) s o s' r HI H.
+    eapply (step_refines B b0 decode upd_bound h cap wf0 wfull start next logStart calcCapacity shift nothrowReloc); eauto.
   Qed.
 
   Theorem all_findable : forall s k, Inv' s -> (In k (abs B s) <-> exists loc, hfind' s k = Some loc).
@@ -1656,7 +1998,8 @@ Section Final.
     assert (EX : exists loc, hfind' s k = Some loc) by (eapply hfind_complete; eauto).
     destruct EX as ([[g idx] pos] & E).
     pose proof E as E2. eapply remove_spec in E2; eauto. destruct E2 as (A1 & A2 & A3 & A4).
-    eexists. split; [simpl; rewrite E; reflexivity|]. split; [exact A1|]. split; [exact A2|]. split; [exact A3|].
+    pose proof E as E3. eapply find_buckets_spec in E3; eauto.
+    eexists. split; [simpl; rewrite E, E3; reflexivity|]. split; [exact A1|]. split; [exact A2|]. split; [exact A3|].
     split; [|exact A4]. eapply hfind_notin_none; eauto.
     Unshelve. all: try exact 0; try exact (fun _ => 0).
   Qed.
@@ -1664,27 +2007,29 @@ Section Final.
   Theorem history_refines_set : kind_ok -> forall os s outs, run' (hinit B) os = Some (s, outs) ->
     refines [] os outs (abs B s).
   Proof.
-    intros (H1 & H2 & H3 & H4 & H5 & H6) os s outs H.
-    apply (run_refines B b0 decode upd_bound h cap wf0 start next logStart calcCapacity shift nothrowReloc H1 H2 H3 H4 H5 H6 os (hinit B) s outs); auto.
+    intros (H1 & H2 & H3 & H4 & H5 & H6 & H7) os s outs H.
+    apply (run_refines B b0 decode upd_bound h cap wf0 wfull start next logStart calcCapacity shift nothrowReloc H1 H7 H2 H3 H4 H5 H6 os (hinit B) s outs); auto.
     apply Inv_init.
   Qed.
 
   Theorem failed_op_changes_nothing : kind_ok -> forall s o s' r, Inv' s -> step' s o = Some (s', r) ->
     (r = RFull \/ r = RBadAlloc \/ r = RExn \/ r = RCheck \/ r = RAlready \/ r = RRemoved false) -> s' = s.
   Proof.
-    intros (H1 & H2 & H3 & H4 & H5 & H6) s o s' r HI H HR. destruct o; simpl in H.
+    intros (H1 & H2 & H3 & H4 & H5 & H6 & H7) s o s' r HI H HR. destruct o; simpl in H.
     - destruct hfail; [inversion H; auto|].
       destruct (hfind' s k) as [[[g idx] pos]|] eqn:EF; [inversion H; auto|].
       assert (NI : ~ In k (abs B s)) by (eapply hfind_none_notin; eauto).
-      destruct (hadd_spec B b0 decode upd_bound h cap wf0 start next logStart calcCapacity shift nothrowReloc H1 H2 H3 H4 H5 H6
+      destruct (hadd_spec B b0 decode upd_bound h cap wf0 wfull start next logStart calcCapacity shift nothrowReloc H1 H7 H2 H3 H4 H5 H6
                   s k afail refuse sch s' r HI NI H) as [(A1 & _)|(A1 & _)]; auto.
       subst r. intuition discriminate.
     - inversion H; auto.
-    - destruct (hfind' s k) as [[[g idx] pos]|]; inversion H; subst; auto. intuition discriminate.
-    - destruct (hreserve_spec B b0 decode upd_bound h cap wf0 start next logStart calcCapacity shift nothrowReloc H1 H2 H3 H4 H5 H6
+    - destruct (hfind' s k) as [[[g idx] pos]|]; [|inversion H; subst; auto].
+      destruct (find_buckets B b0 wf0 (gens B s) idx g pos); inversion H; subst. intuition discriminate.
+    - destruct (hreserve_spec B b0 decode upd_bound h cap wf0 wfull start next logStart calcCapacity shift nothrowReloc H1 H7 H2 H3 H4 H5 H6
                   s n refuse sch s' r HI H) as (_ & _ & [A|(A & _)]); auto. subst r. intuition discriminate.
     - inversion H; auto.
     - inversion H; auto.
+    - inversion H; subst. intuition discriminate.
   Qed.
 
   Theorem grow_refused_insert_succeeds_unless_path_full : kind_ok -> kind_ok3 -> forall s t r k sch,
@@ -1697,8 +2042,8 @@ Section Final.
     ((forall d, Z.of_nat d < bcount B t -> isFull B cap (getb B b0 wf0 t (path start next (bcount B t) (h k) d)) = true) ->
        step' s (OInsert k false false true sch) = Some (s, RFull)).
   Proof.
-    intros (H1 & H2 & H3 & H4 & H5 & H6) K3. intros.
-    eapply (refused_growth_insert B b0 decode upd_bound h cap wf0 start next logStart calcCapacity shift nothrowReloc); eauto.
+    intros (H1 & H2 & H3 & H4 & H5 & H6 & H7) K3. intros.
+    eapply (refused_growth_insert B b0 decode upd_bound h cap wf0 wfull start next logStart calcCapacity shift nothrowReloc); eauto.
   Qed.
 
   Theorem later_ops_complete_migration_thm : kind_ok -> kind_ok2 -> kind_ok3 -> forall ks s,
@@ -1708,17 +2053,57 @@ Section Final.
       ((Z.max 0 (capacity B s - count B s) < Z.of_nat (length ks) \/ length (gens B s) = 1%nat) ->
          length (gens B s') = 1%nat).
   Proof.
-    intros (H1 & H2 & H3 & H4 & H5 & H6) (K1 & K2) K3. intros.
-    eapply (later_ops_complete_migration B b0 decode upd_bound h cap wf0 start next logStart calcCapacity shift nothrowReloc); eauto.
+    intros (H1 & H2 & H3 & H4 & H5 & H6 & H7) (K1 & K2) K3. intros.
+    eapply (later_ops_complete_migration B b0 decode upd_bound h cap wf0 wfull start next logStart calcCapacity shift nothrowReloc); eauto.
+  Qed.
+
+  (* pvFindBuckets (walk over the generations comparing bucket address ranges) returns the generation in which pvFind
+     found the item, in every state satisfying Inv *)
+  Theorem find_buckets_returns_owner : forall s k gi idx pos, Inv' s -> hfind' s k = Some (gi, idx, pos) ->
+    find_buckets B b0 wf0 (gens B s) idx gi pos = Some gi.
+  Proof.
+    intros s k gi idx pos HI E. eapply find_buckets_spec in E; eauto.
+    Unshelve. all: try exact 0; try exact (fun _ => 0).
+  Qed.
+
+  (* traversal_once for the pvInc/pvMove state machine *)
+  Theorem iterator_traversal_once : forall s, Inv' s ->
+    exists l, walk B b0 wf0 (Z.to_nat (count B s)) (it_begin B b0 wf0 s) = (l, IEnd B) /\
+              Permutation l (abs B s) /\ NoDup l.
+  Proof.
+    intros s HI. exists (traverse B s). split.
+    - eapply iterator_walk; eauto.
+    - eapply traverse_spec; eauto.
+    Unshelve. all: try exact 0; try exact (fun _ => 0).
+  Qed.
+
+  Theorem clear_any_state : forall s shrink, 0 < cap -> Inv' s ->
+    Inv' (hclear B b0 wf0 s shrink) /\ abs B (hclear B b0 wf0 s shrink) = [] /\ (length (gens B (hclear B b0 wf0 s shrink)) <= 1)%nat.
+  Proof.
+    intros s shrink HC HI. assert (X : Inv' (hclear B b0 wf0 s shrink) /\ abs B (hclear B b0 wf0 s shrink) = []).
+    { eapply hclear_spec; eauto. }
+    destruct X as (X1 & X2). split; auto. split; auto.
+    unfold hclear. destruct HI as (HF & _ & _ & HN). destruct (gens B s) eqn:E; [rewrite E; simpl; lia|]. destruct shrink; simpl; lia.
+    Unshelve. all: try exact 0; try exact (fun _ => 0).
+  Qed.
+
+  Theorem reserve_completes_migration_thm : kind_ok -> kind_ok2 -> forall s n nl, Inv' s ->
+    (n <=? capacity B s) = false -> count B s <= n ->
+    reserve_log calcCapacity 64 (newLog B logStart shift (gens B s)) n = Some nl ->
+    exists s', step' s (OReserve n false []) = Some (s', RUnit) /\ length (gens B s') = 1%nat /\ Inv' s' /\
+               Permutation (abs B s') (abs B s) /\ n <= capacity B s'.
+  Proof.
+    intros (H1 & H2 & H3 & H4 & H5 & H6 & H7) (K1 & K2). intros.
+    eapply (reserve_completes_migration B b0 decode upd_bound h cap wf0 wfull start next logStart calcCapacity shift nothrowReloc); eauto.
   Qed.
 
   (* CapOk (premise of later_ops_complete_migration) holds in every reachable state that has a table *)
   Theorem reachable_cap_ok : kind_ok -> kind_ok2 -> forall os s outs,
     run' (hinit B) os = Some (s, outs) -> gens B s <> [] -> CapOk B cap s.
   Proof.
-    intros (H1 & H2 & H3 & H4 & H5 & H6) (K1 & K2) os s outs H HN.
+    intros (H1 & H2 & H3 & H4 & H5 & H6 & H7) (K1 & K2) os s outs H HN.
     assert (C : CapInv B cap s).
-    { eapply (capinv_run B b0 decode upd_bound h cap wf0 start next logStart calcCapacity shift nothrowReloc); eauto.
+    { eapply (capinv_run B b0 decode upd_bound h cap wf0 wfull start next logStart calcCapacity shift nothrowReloc); eauto.
       - apply Inv_init.
       - unfold CapInv, hinit; simpl; auto. }
     unfold CapInv in C. unfold CapOk. destruct (gens B s) as [|t r] eqn:E; [congruence|]. eauto.
@@ -1728,9 +2113,9 @@ Section Final.
   Theorem insert_never_fails_check : kind_ok -> kind_ok2 -> kind_ok3 -> forall os s outs k hf af rf sch s' r,
     run' (hinit B) os = Some (s, outs) -> step' s (OInsert k hf af rf sch) = Some (s', r) -> r <> RCheck.
   Proof.
-    intros (H1 & H2 & H3 & H4 & H5 & H6) (K1 & K2) K3 os s outs k hf af rf sch s' r H HS.
+    intros (H1 & H2 & H3 & H4 & H5 & H6 & H7) (K1 & K2) K3 os s outs k hf af rf sch s' r H HS.
     assert (I : Inv' s).
-    { eapply (run_inv B b0 decode upd_bound h cap wf0 start next logStart calcCapacity shift nothrowReloc); eauto. apply Inv_init. }
+    { eapply (run_inv B b0 decode upd_bound h cap wf0 wfull start next logStart calcCapacity shift nothrowReloc); eauto. apply Inv_init. }
     assert (C : CapInv B cap s).
     { eapply capinv_run; [..|exact H]; eauto.
       - apply Inv_init.
@@ -1747,9 +2132,12 @@ Definition cfg_cc (c : config) := if c_policy c =? 0 then cc_base (c_cap c) else
 Definition cfg_sh (c : config) := if c_policy c =? 0 then sh_base (c_cap c) else sh_open (c_cap c).
 
 Lemma concrete_kind_ok : forall c, 0 < c_cap c -> 0 <= c_logStart c ->
-  kind_ok Z (fun _ b => b) Z.max (c_cap c) start_mask (cfg_next c) (c_logStart c) (cfg_sh c).
+  kind_ok Z (fun _ b => b) Z.max (c_cap c) (cfg_wfull c) start_mask (cfg_next c) (c_logStart c) (cfg_sh c).
 Proof.
-  intros c H1 H2. unfold kind_ok. split; [auto|]. split; [|split; [|split; [|split]]]; auto.
+  intros c H1 H2. unfold kind_ok. split; [auto|]. split; [|split; [|split; [|split; [|split]]]]; auto;
+    [| | | |intros n Hn; unfold cfg_wfull; destruct (c_wfodd c); apply Z.leb_le;
+            [pose proof (Z.mod_pos_bound (c_cap c) 2 ltac:(lia)); pose proof (Z.mod_pos_bound n 2 ltac:(lia));
+             destruct (Z.eq_dec n (c_cap c)); [subst; lia|lia] | lia]].
   - intros. unfold start_mask. apply Z.mod_pos_bound; auto.
   - intros. unfold cfg_next, next_linear, next_tri. destruct (c_probe c =? 0); apply Z.mod_pos_bound; auto.
   - intros. lia.
@@ -1804,13 +2192,13 @@ Fixpoint cfg_run (c : config) (s : hset Z) (os : list op) : option (hset Z * lis
   end.
 
 Lemma cfg_run_is_run : forall c s os, cfg_run c s os =
-  run Z 0 (fun _ b => b) Z.max (spread (c_dist c)) (c_cap c) (c_wf0 c) start_mask (cfg_next c) (c_logStart c)
+  run Z 0 (fun _ b => b) Z.max (spread (c_dist c)) (c_cap c) (c_wf0 c) (cfg_wfull c) start_mask (cfg_next c) (c_logStart c)
       (cfg_cc c) (cfg_sh c) (c_nothrow c) s os.
 Proof.
   intros c s os; revert s; induction os as [|a os IH]; intros s; [reflexivity|].
   rewrite run_cons. simpl cfg_run.
-  change (cfg_step c s a) with (step Z 0 (fun _ b => b) Z.max (spread (c_dist c)) (c_cap c) (c_wf0 c) start_mask (cfg_next c) (c_logStart c) (cfg_cc c) (cfg_sh c) (c_nothrow c) s a).
-  destruct (step Z 0 (fun _ b => b) Z.max (spread (c_dist c)) (c_cap c) (c_wf0 c) start_mask (cfg_next c) (c_logStart c) (cfg_cc c) (cfg_sh c) (c_nothrow c) s a) as [[s1 x]|]; auto.
+  change (cfg_step c s a) with (step Z 0 (fun _ b => b) Z.max (spread (c_dist c)) (c_cap c) (c_wf0 c) (cfg_wfull c) start_mask (cfg_next c) (c_logStart c) (cfg_cc c) (cfg_sh c) (c_nothrow c) s a).
+  destruct (step Z 0 (fun _ b => b) Z.max (spread (c_dist c)) (c_cap c) (c_wf0 c) (cfg_wfull c) start_mask (cfg_next c) (c_logStart c) (cfg_cc c) (cfg_sh c) (c_nothrow c) s a) as [[s1 x]|]; auto.
   rewrite IH. reflexivity.
 Qed.
 
@@ -1828,7 +2216,7 @@ Qed.
 (* Open2N2<3>, slow-hash keys, identity hash, 2 start buckets: the history of the harness smoke test.
    insert 1..5, 6 with refused growth (fallback), 8 with a migration that throws after 1 item, 9..14 with
    migrations that throw at once, 15 throwing after 1 item: THREE coexisting generations. *)
-Definition ex_cfg : config := mkCfg 1 1 3 true 1 0 false.
+Definition ex_cfg : config := mkCfg 1 1 3 true 1 0 false false.
 Definition ins (k : Z) := OInsert k false false false [].
 Definition ex_ops : list op :=
   [ins 1; ins 2; ins 3; ins 4; ins 5; OInsert 6 false false true [];
